@@ -1211,6 +1211,7 @@ carquet_status_t carquet_read_next_page(
     int16_t* def_levels,
     int16_t* rep_levels,
     int64_t* values_read,
+    int64_t* non_null_read,
     carquet_error_t* error) {
 
     if (!reader || !values || !values_read) {
@@ -1230,6 +1231,7 @@ carquet_status_t carquet_read_next_page(
         if (status != CARQUET_OK) {
             return status;
         }
+        reader->page_dense_read = 0;
     }
 
     /* Calculate how many values to return from the current page */
@@ -1239,11 +1241,22 @@ carquet_status_t carquet_read_next_page(
         to_copy = available;
     }
 
-    /* Copy values from decoded buffers */
+    /* Copy values from decoded buffers. Decoded values are stored packed (one per
+     * non-null row) while levels are stored per row: the copy starts after the
+     * non-null values already delivered from this page and covers the non-null
+     * rows among the next to_copy rows. */
+    int32_t dense_offset = reader->page_values_read;
+    int32_t dense_count = to_copy;
+    if (reader->max_def_level > 0) {
+        dense_offset = reader->page_dense_read;
+        dense_count = (int32_t)carquet_dispatch_count_non_nulls(
+            reader->decoded_def_levels + reader->page_values_read,
+            to_copy, reader->max_def_level);
+    }
     size_t value_size = get_value_size(reader->type, reader->type_length);
-    size_t offset = (size_t)reader->page_values_read * value_size;
+    size_t offset = (size_t)dense_offset * value_size;
 
-    memcpy(values, (uint8_t*)reader->decoded_values + offset, (size_t)to_copy * value_size);
+    memcpy(values, (uint8_t*)reader->decoded_values + offset, (size_t)dense_count * value_size);
 
     if (def_levels) {
         memcpy(def_levels, reader->decoded_def_levels + reader->page_values_read,
@@ -1256,8 +1269,12 @@ carquet_status_t carquet_read_next_page(
 
     /* Update state */
     reader->page_values_read += to_copy;
+    reader->page_dense_read += dense_count;
     reader->values_remaining -= to_copy;
     *values_read = to_copy;
+    if (non_null_read) {
+        *non_null_read = dense_count;
+    }
 
     return CARQUET_OK;
 }
